@@ -8,6 +8,9 @@
      - the writer answering a delivered message (connection.defaultReplyEvent / subPackReplyEvent):
        ReplyID, PlatformSerialNumber, and Header.Encode: BodyDayaLen := len(reply body),
        PacketFragmented := 0 - on the delivered message's OWN header (by design of the library).
+   (A third site, connection.onActiveEvent, writes the SESSION's header, a deep copy made in
+   sessionManager.join - never a delivered message's cell: not a step here, see checks/C09.json.  The
+   deferred clear of a closing connection touches no header: no Close step.)
    Which headers are shared is a parameter (variant), so that the two repaired sharings can still be
    expressed: timeoutRecord.initHeader vs the first packet's header (fix 4b6a3bd), the merged message
    vs the completing packet (fix a3fb0a0); `Shallow` is a copy of the Header struct that still shares
